@@ -61,6 +61,20 @@ def subterms(t):
                     yield s
 
 
+def _reads_variable(t):
+    """does the VALUE of term t depend on a re-assignable variable read at evaluation time?  Results of
+    site-tagged calls are events in time (their identity includes the site), so their arguments do not count."""
+    if not isinstance(t, tuple) or not t:
+        return False
+    if t[0] in ("var", "loopvar"):
+        return True
+    if t[0] == "call" and len(t) > 3 and t[3] is not None:
+        return False
+    if t[0] in ("next", "elem"):
+        return False
+    return any(_reads_variable(x) for x in t if isinstance(x, tuple))
+
+
 def mentions(t, sub):
     for s in subterms(t):
         if s == sub:
@@ -524,8 +538,61 @@ class Body:
             r = ev.call_term(self.blocks[bb]["term"], bb)
         else:
             r = ev.rvalue(self.blocks[bb]["stmts"][n]["rv"])
+        # a single-assignment local whose value was computed from a re-assignable variable is a SNAPSHOT of that
+        # variable: expanding it at a use far from its definition would pretend the variable is read there.
+        # Only compiler temporaries used in the block that defines them are expanded.
+        if _reads_variable(r) and re.match(r"^(bool|char|[iu](8|16|32|64|128|size)|f32|f64)$", self.ltypes.get(l, "")):
+            if not self._used_only_in_block(l, bb):
+                r = T("var", l, self.dbg.get(l, ""), 0)
         self._gterm[l] = r
         return r
+
+    def _used_only_in_block(self, l, bb):
+        if not hasattr(self, "_use_blocks"):
+            ub = collections.defaultdict(set)
+
+            def place(p, i):
+                ub[p["l"]].add(i)
+                for e in p["p"]:
+                    if e["k"] == "index":
+                        ub[e["local"]].add(i)
+
+            def op(o, i):
+                if o["k"] in ("copy", "move"):
+                    place(o["place"], i)
+            for i, x in self.blocks.items():
+                if x["cleanup"]:
+                    continue
+                for st in x["stmts"]:
+                    if st["k"] == "assign":
+                        rv = st["rv"]
+                        k = rv["k"]
+                        if k in ("use", "cast"):
+                            op(rv["op"], i)
+                        elif k in ("ref", "rawptr", "copyderef", "discr"):
+                            place(rv["place"], i)
+                        elif k == "binop":
+                            op(rv["a"], i)
+                            op(rv["b"], i)
+                        elif k == "unop":
+                            op(rv["a"], i)
+                        elif k == "agg":
+                            for o in rv["ops"]:
+                                op(o, i)
+                        if st["lhs"]["p"]:
+                            place(st["lhs"], i)
+                t = x["term"]
+                if t["k"] == "call":
+                    for a in t["args"]:
+                        op(a, i)
+                elif t["k"] == "switch":
+                    op(t["discr"], i)
+                elif t["k"] == "assert":
+                    op(t["cond"], i)
+                elif t["k"] == "drop":
+                    pass
+            self._use_blocks = ub
+        return self._use_blocks.get(l, set()) <= {bb}
 
 
 # --------------------------------------------------------------------------
